@@ -435,7 +435,13 @@ func (g *gen) module() {
 			}
 		}
 	}
-	if cfg.Customs {
+	if cfg.Customs && g.chance(35, "dwarf") {
+		// minimal well-formed DWARF (one compilation-unit header, empty abbreviation table): the
+		// engines then keep per-instruction source offsets and symbolise traps through them
+		m.Customs = append(m.Customs, wasmenc.Custom{Name: ".debug_abbrev", Data: []byte{0}},
+			wasmenc.Custom{Name: ".debug_info", Data: []byte{7, 0, 0, 0, 4, 0, 0, 0, 0, 0, 4}})
+		g.stat("dwarf")
+	} else if cfg.Customs {
 		nc := g.rng(0, 3, "ncustom")
 		for i := 0; i < nc; i++ {
 			nm := rapid.SampledFrom([]string{"producers", ".debug_info", ".debug_line", ".debug_str", ".debug_abbrev", "x", "target_features"}).Draw(g.t, "cname")
@@ -974,9 +980,32 @@ func (g *gen) stmt() (terminated bool) {
 		if !g.out.HasMemory || !g.chance(30, "dogrow") {
 			return false
 		}
-		g.i32const(int32(g.intn(3, "growby")))
+		by := g.intn(3, "growby")
+		g.i32const(int32(by))
 		g.op1("memory.grow", 0x40, 0x00)
-		g.op1("drop", 0x1a)
+		if by > 0 && g.chance(60, "growtouch") {
+			// write into (and read back from) the first page just obtained, if the growth succeeded:
+			// the contents of grown pages are part of the observable state
+			old := g.privateLocal(I32)
+			g.localTee(old)
+			g.i32const(-1)
+			g.op1("i32.ne", 0x47)
+			g.open("if", 0x04, nil, nil, false)
+			g.localGet(old)
+			g.i32const(16)
+			g.op1("i32.shl", 0x74)
+			g.expr(I32, 2)
+			g.memIns("i32.store", 0x36, 2, uint32(g.intn(4096, "touchoff"))*4)
+			g.localGet(old)
+			g.i32const(16)
+			g.op1("i32.shl", 0x74)
+			g.memIns("i32.load", 0x28, 2, uint32(g.intn(16384, "touchoff2"))*4)
+			g.consume(I32)
+			g.close()
+			g.stat("grow-touch")
+		} else {
+			g.op1("drop", 0x1a)
+		}
 		g.stat("memory.grow")
 	case "return":
 		if !g.chance(20, "doreturn") {
